@@ -101,10 +101,42 @@ impl tracing::field::Visit for DlVisitor {
 pub static TELL_ERR_EVENTS: AtomicU64 = AtomicU64::new(0);
 pub static DEAD_LETTER_EVENTS: AtomicU64 = AtomicU64::new(0);
 
+/// "Slow subscriber" mode (0 = off): while it is set, every event of the crate under test - at any level - is enabled, and
+/// delivering it takes this thread, now and then, up to that many milliseconds (a subscriber doing blocking I/O). It only
+/// ever delays the thread that logs.
+pub static SLOW_LOG_MS: AtomicU64 = AtomicU64::new(0);
+pub static SLOW_LOG_STALLS: AtomicU64 = AtomicU64::new(0);
+pub static SLOW_LOG_SEED: AtomicU64 = AtomicU64::new(1);
+static SLOW_LOG_THREADS: AtomicU64 = AtomicU64::new(0);
+thread_local! {
+    static SLOW_RNG: Cell<u64> = Cell::new(0);
+}
+fn slow_stall(max_ms: u64) {
+    let r = SLOW_RNG.with(|c| {
+        let mut x = c.get();
+        if x == 0 {
+            x = (SLOW_LOG_THREADS.fetch_add(1, Ordering::SeqCst) + 1 + SLOW_LOG_SEED.load(Ordering::SeqCst).wrapping_mul(1_000_003)).wrapping_mul(0x9E37_79B9_7F4A_7C15) | 1;
+        }
+        x ^= x << 13;
+        x ^= x >> 7;
+        x ^= x << 17;
+        c.set(x);
+        x
+    });
+    if (r >> 8) % 4 == 0 {
+        SLOW_LOG_STALLS.fetch_add(1, Ordering::SeqCst);
+        std::thread::sleep(std::time::Duration::from_millis(max_ms / 5 + (r >> 16) % (max_ms - max_ms / 5 + 1)));
+    }
+}
+
 struct Sub;
 impl tracing::Subscriber for Sub {
+    fn register_callsite(&self, _: &'static tracing::Metadata<'static>) -> tracing::subscriber::Interest {
+        // decided per event (`enabled`), because the slow-subscriber mode is switched at run time
+        tracing::subscriber::Interest::sometimes()
+    }
     fn enabled(&self, m: &tracing::Metadata<'_>) -> bool {
-        *m.level() <= tracing::Level::WARN
+        *m.level() <= tracing::Level::WARN || (SLOW_LOG_MS.load(Ordering::Relaxed) > 0 && m.target().starts_with("rsactor"))
     }
     fn new_span(&self, _: &tracing::span::Attributes<'_>) -> tracing::span::Id {
         tracing::span::Id::from_u64(1)
@@ -112,6 +144,10 @@ impl tracing::Subscriber for Sub {
     fn record(&self, _: &tracing::span::Id, _: &tracing::span::Record<'_>) {}
     fn record_follows_from(&self, _: &tracing::span::Id, _: &tracing::span::Id) {}
     fn event(&self, event: &tracing::Event<'_>) {
+        let slow = SLOW_LOG_MS.load(Ordering::Relaxed);
+        if slow > 0 && event.metadata().target().starts_with("rsactor") {
+            slow_stall(slow);
+        }
         let mut v = DlVisitor { reason: None, operation: None, is_dl: false, tell_err: false };
         event.record(&mut v);
         if v.tell_err {
